@@ -240,6 +240,13 @@ def call_pyfunc(I, f, args, kwargs, bound_self=None, have_self=False, cls=None):
             con = reg.contract_for_call(qn, I)
             if con is not None and not inspect.iscoroutinefunction(f):
                 return reg.apply_contract(I, con, f, args, kwargs, bound_self if have_self else None)
+        if f.__name__ == "<lambda>" and source.is_contract_module(mod):
+            lnode = source.lambda_ast(f)
+            env = Env({}, None, f.__globals__)
+            if f.__closure__:
+                for cname, cell in zip(f.__code__.co_freevars, f.__closure__):
+                    env.vars[cname] = cell.cell_contents
+            return I.call_ast_function(lnode, None, env, list(args), dict(kwargs))
         try:
             node, modname, _h = source.find_function(qn)
         except KeyError:
@@ -321,6 +328,23 @@ def call_native(I, fn, args, kwargs):
         if ext is not None:
             I.ctx.assumptions_used.add(f"external:{qn}")
             return ext(I, list(args), kwargs)
+    if getattr(fn, "__name__", "") == "join" and isinstance(getattr(fn, "__self__", None), (bytes, bytearray)) and len(args) == 1:
+        # sep.join(iterable of bytes): concatenation (separator must be empty for symbolic items)
+        items = args[0].items() if isinstance(args[0], LazyGen) else I.iterate_concrete(args[0])
+        if not _has_sym(items):
+            try:
+                return fn(items)
+            except TypeError as e:
+                raise PyRaise(e)
+        if len(fn.__self__) != 0:
+            raise Unsupported("bytes.join with a non-empty separator over symbolic items")
+        for x in items:
+            if not is_byteslike(x):
+                raise PyRaise(mk_exc(TypeError, "sequence item: expected a bytes-like object"))
+        if not items:
+            return b""
+        ts = [bytes_term(x) for x in items]
+        return SBytes(z3.simplify(z3.Concat(*ts)) if len(ts) > 1 else ts[0])
     if _has_sym(args) or _has_sym(kwargs):
         raise Unsupported(f"call of external {qn} with symbolic arguments and no assumed contract")
     if I.native or _is_pure_native(fn, mod):
@@ -1164,8 +1188,13 @@ def int_method(I, v, name, args, kwargs):
         if cls is None or getattr(cls, "_size", None) is None:
             raise Unsupported("serialize of untyped symbolic int")
         size = cls._size
-        x = z3.Int2BV(t, 8 * size)  # two's complement for signed types as well
-        units = [z3.Unit(z3.Extract(8 * k + 7, 8 * k, x)) for k in range(size)]
+        if not getattr(cls, "_signed", False):
+            # unsigned: byte k is (t div 256^k) mod 256 -- kept arithmetic so that layouts written with
+            # // and % meet it syntactically
+            units = [z3.Unit(z3.Int2BV(z3.simplify((t / (256 ** k)) % 256), 8)) for k in range(size)]
+        else:
+            x = z3.Int2BV(t, 8 * size)  # two's complement
+            units = [z3.Unit(z3.Extract(8 * k + 7, 8 * k, x)) for k in range(size)]
         if getattr(cls, "_byteorder", "little") == "big":
             units.reverse()
         return SBytes(z3.simplify(z3.Concat(*units)) if len(units) > 1 else units[0])
@@ -1204,7 +1233,9 @@ def native_mutable_method(I, obj, name, args, kwargs):
                 return obj.pop(*args)
             except KeyError as e:
                 raise PyRaise(e)
-        if name in ("items", "values", "keys"):
+        if name == "keys":
+            return obj.keys()  # keys of a concrete-spine dict are concrete: the real view (set algebra works)
+        if name in ("items", "values"):
             return list(getattr(obj, name)())
         if name in ("setdefault", "update", "clear", "copy"):
             if _has_sym(args[:1]) and name == "setdefault":
